@@ -1,5 +1,6 @@
 import ServiceModel.Proofs.Reachable
 import ServiceModel.Proofs.Eventually
+import ServiceModel.Proofs.Restart
 /-!
 # C11 — A running context is never stranded
 -/
@@ -88,5 +89,26 @@ theorem pending_request_never_outlives_expiry (hc : CfgOK cfg p) {s s' : State} 
     request is no longer pending (and, by C02, has been settled exactly once). -/
 theorem every_block_advances_height (hc : CfgOK cfg p) {s : State} (hr : Reachable cfg p h0 t0 s) (dt : Int) :
     (step s (.endblock dt)).1.height = s.height + 1 := endblock_advances (reachable_inv hc hr) dt
+
+/-- The state clauses in every state of a chain that goes through any number of zero-height restarts (a restart leaves
+    both queues empty and every context paused, so nothing is stranded by it): queues mirror their pointers, events are
+    not in the past and refer to existing contexts, a running context has an event and never two, and every pending
+    request belongs to the current batch of an existing context whose pending expiry is at the request's expiry height. -/
+theorem scheduling_invariants_across_restarts (hc : CfgOK cfg p) {s : State} (hr : ReachableR cfg p h0 t0 s) :
+    (∀ h c, (h, c) ∈ s.newQ ↔ Map.get s.newH c = some h) ∧ (∀ h c, (h, c) ∈ s.expQ ↔ Map.get s.expH c = some h) ∧
+    (∀ c h, Map.get s.newH c = some h → s.height ≤ h ∧ (Map.get s.ctxs c).isSome) ∧
+    (∀ c h, Map.get s.expH c = some h → s.height ≤ h ∧ (Map.get s.ctxs c).isSome) ∧
+    (∀ c, Map.get s.newH c = none ∨ Map.get s.expH c = none) ∧
+    (∀ c x, Map.get s.ctxs c = some x → x.state = .running → (Map.get s.newH c).isSome ∨ (Map.get s.expH c).isSome) ∧
+    (∀ r, r ∈ s.activeI → ∃ q x, Map.get s.reqs r = some q ∧ Map.get s.ctxs r.ctx = some x ∧ r.batch = x.batch ∧
+      Map.get s.expH r.ctx = some q.expH) := by
+  have h := (reachableR_invAll hc hr).inv.x
+  refine ⟨h.newMirror, h.expMirror, h.newFuture, h.expFuture, h.single, h.runningQ, ?_⟩
+  intro r hact
+  cases hq : Map.get s.reqs r with
+  | none => have := h.activeReq r hact; rw [hq] at this; cases this
+  | some q =>
+    obtain ⟨x, hx, hb, he⟩ := h.reqCtx r q hq
+    exact ⟨q, x, rfl, hx, hb, he⟩
 
 end SM.C11
